@@ -327,6 +327,12 @@ class Rewriter:
         self.hit('W6', n)
         return text
 
+    # ---- W8: awaiting a futures oneshot receiver -> stand-in method ---------------------------------
+    def w8(self, text):
+        t, k = re.subn(r'\b(\w*receiver)\s*\.await\b', r'\1.recv().await', text)
+        self.hit('W8', k)
+        return t
+
     # ---- W10: generic ack::<R> -> monomorphic name ------------------------------
     def w10(self, text):
         t, k = re.subn(r'\bSelf::ack::<\s*(\w+)\s*>\s*\(', r'Self::ack_\1(', text)
